@@ -154,10 +154,13 @@ DeleteEdge(s) ==
     /\ err' = "ok"
     /\ UNCHANGED <<lib, doms, fors, nextFid, files>>
 
+\* attaching an edge to the forest it is already attached to changes nothing
+AttachResult(s, f) == IF edges[s].f = f THEN edges[s] ELSE FreshEdge(f)
+
 AttachEdge(s, f) ==
     /\ s \in DOMAIN edges
     /\ f = NoForest \/ LiveForest(f)
-    /\ edges' = [edges EXCEPT ![s] = FreshEdge(f)]
+    /\ edges' = [edges EXCEPT ![s] = AttachResult(s, f)]
     /\ err' = "ok"
     /\ UNCHANGED <<lib, doms, fors, nextFid, files>>
 
